@@ -28,6 +28,25 @@ CAND = ['a/', 'a/__init__.py', 'a/b.py', 'a/b/', 'a/b/__init__.py', 'a/b/c.py', 
 NAMES = ['a', 'b', 'c', 'a_b', 'a.b', 'a.b.c', 'a.a', 'a_b.a', 'b.a', 'a.c', 'a.__main__', 'a.b.__main__', 'a.__init__', 'a.x__init__', 'y__init__', 'a.z__main__']
 
 
+# the same trees under an injective renaming of the identifiers: non-ASCII letters, digits, capitals are identifiers too
+REN = {'a': 'caf\u00e9', 'b': '\u03c0\u03b1\u03ba\u03ad\u03c4\u03bf', 'c': 'c9', 'a_b': 'A_b'}
+
+
+def rn_entry(e):
+    def comp(c):
+        base, ext = (c[:-3], '.py') if c.endswith('.py') else (c, '')
+        return REN.get(base, base) + ext
+    return '/'.join(comp(c) for c in e.rstrip('/').split('/')) + ('/' if e.endswith('/') else '')
+
+
+def rn_name(n):
+    return '.'.join(REN.get(p, p) for p in n.split('.'))
+
+
+def names_for(entries):
+    return [rn_name(n) for n in NAMES] if any(ord(ch) > 127 for e in entries for ch in e) else NAMES
+
+
 def closed(sub):
     s = set(sub)
     for e in sub:
@@ -148,6 +167,7 @@ def _worker(job):
     obs = []
     reqs = []
     problems = []
+    NAMES = names_for(entries)
     for name in NAMES:
         try:
             got = util_import.modname_to_modpath(name, sys_path=[root])
@@ -317,6 +337,7 @@ def run(ctx):
                 if rng.random() < 0.65 and closed(sub + [c]):
                     sub.append(c)
             trees.append(sub)
+        trees += [[rn_entry(e) for e in t] for t in trees[::4]]
         jobs = [(tmp, i, t) for i, t in enumerate(trees)]
         results = common.pmap(_worker, jobs, chunksize=20)
         allreqs = [r for res in results for r in res[3]]
